@@ -172,8 +172,8 @@ func WorkerState(handler uintptr) string {
 		}
 		top := g.FirstRepoFrame()
 		switch {
-		case g.State == "chan send" && strings.HasSuffix(top, ".suspend"):
-			return "suspend"
+		case (g.State == "chan send" || g.State == "select") && strings.HasSuffix(top, ".suspend"):
+			return "suspend" // the hand-shake send (a select with the quit channel since fix fa8eaa6)
 		case g.State == "chan send" && strings.HasSuffix(top, ".resume"):
 			return "resume"
 		case g.State == "select" && strings.HasSuffix(top, "masswallet.worker"):
